@@ -64,6 +64,13 @@ func (p *Proxy) Sent(dir string, idx int, d time.Duration) []byte {
 	}
 }
 
+// NSent returns how many messages side dir has sent so far.
+func (p *Proxy) NSent(dir string) int {
+	p.mu.Lock()
+	defer p.mu.Unlock()
+	return len(p.Transcript[dir])
+}
+
 // Inject writes raw bytes towards the peer of dir (as if dir had sent them).
 func (p *Proxy) Inject(dir string, data []byte) error {
 	p.mu.Lock()
@@ -239,6 +246,13 @@ func (d *Drain) Take() [][]byte {
 	out := d.Frames
 	d.Frames = nil
 	return out
+}
+
+// Put puts frames back (in front).
+func (d *Drain) Put(fr [][]byte) {
+	d.mu.Lock()
+	defer d.mu.Unlock()
+	d.Frames = append(fr, d.Frames...)
 }
 
 // WaitN waits until at least n frames arrived or the timeout passed.
